@@ -41,11 +41,12 @@ int main(int argc, char **argv)
 {
         sw_init(argc, argv, "args");
         int lite = sw_argi(argc, argv, "--lite", 0);
-        static const int CAPS[] = {6, 7, 8, 16};
+        static const int CAPS[] = {6, 7, 8, 16, 24, 32};
+        int ncaps = SW.tier ? 6 : 4;
         int idx = 0;
         uint8_t a[400];
         for (int k = 0; k < 3; k++)
-                for (int ci = 0; ci < 4; ci++)
+                for (int ci = 0; ci < ncaps; ci++)
                         for (int shared = 0; shared < 3; shared++, idx++) {
                                 if (idx % SW.nshards != SW.shard) continue;
                                 int cap = CAPS[ci];
